@@ -13,7 +13,7 @@ WellTypedTrees == {t \in Trees(Wide) : SubjectWellTyped(t)}
 Init == e \in WellTypedTrees
 Next == UNCHANGED e
 
-Sound == LET insts == InstSeq(e) IN \A k \in 1..Len(insts) : RunsFine(EvalOn(e, insts[k]))
+Sound == LET insts == Force(InstSeq(e)) IN \A k \in 1..Len(insts) : RunsFine(EvalOn(e, insts[k]))
 \* the stratum is not empty and not everything
 ASSUME PrintT(<<"@@PRINT@@ welltyped", Cardinality(WellTypedTrees), Cardinality(Trees(Wide))>>)
 ASSUME WellTypedTrees # {} /\ WellTypedTrees # Trees(Wide)
